@@ -37,6 +37,9 @@ def run(rep, tier):
     from . import c02_kernels, c02_linear
     c02_kernels.run(rep, F, tier, only={"Triangle∩Coord", "Line∩Coord", "Rect∩Coord", "ring-step", "polygon-composition"}, rule="R12.4")
     c02_linear.run(rep, F, tier, rule="R12.4")
+    # every exact predicate this property rests on is a sign of the orientation kernel (rules shared with C03)
+    from . import c03 as _c03
+    _c03.kernel_rules(rep, F, "R12.9")
 
 
 def intersection_rule(rep, F):
